@@ -92,7 +92,18 @@ def run(rep, tier, root=None):
                   tag + ".scrn == _scrn[:requested_nx_size, :requested_nx_size]",
                   "exposed screen is %s" % (nf(p3[0][2], 160) if p3 else None), m3.where())
         # ---- S3 effect-free readers, S4 who-writes
+        # a non-public helper that is only ever called from get_new_row is part of get_new_row (whose effects, helper
+        # included, are checked below and by S5); it is not a reader of its own
+        callers = {}
+        for cname_, cm in methods.items():
+            for node_, b_ in fx.summary(cm).calls:
+                if b_ is not None and b_.kind == "func" and b_.target.cls is not None:
+                    callers.setdefault(b_.target.name.split(".")[-1], set()).add(cname_)
+        row_helpers = set(n_ for n_ in methods if n_.startswith("_") and not n_.startswith("__") and
+                          callers.get(n_) and callers[n_] <= {"get_new_row"})
         for name, meth in sorted(methods.items()):
+            if name in row_helpers:
+                continue
             s = fx.summary(meth)
             if name in ("scrn", "__repr__") or (name not in _all_writers() and name not in ("__init__", "add_row")
                                                  and not name.startswith("set_") and not name.startswith("make")
